@@ -205,6 +205,11 @@ func (f *frame) libCall(callee *ssa.Function, c *ssa.CallCommon, base string, re
 		fnm := map[string]string{"Int": "rv-int", "Uint": "rv-uint", "Float": "rv-float", "Bool": "rv-bool", "Kind": "rv-kind"}[callee.Name()]
 		e.R.extra(fmt.Sprintf("(declare-fun %s (%s) %s)", fnm, rv, e.R.sortOf(resT)))
 		return ret(fmt.Sprintf("(%s %s)", fnm, arg(0)))
+	case "bytes.NewBuffer", "bytes.NewBufferString", "strings.NewReader", "strings.NewReplacer":
+		used("constructor returns a non-nil pointer")
+		r := f.resultHavoc(base, resT)
+		f.assume(fmt.Sprintf("(> %s 0)", r.term))
+		return r
 	case "errors.New", "fmt.Errorf":
 		used("returns a non-nil error")
 		r := f.resultHavoc(base, resT)
